@@ -280,10 +280,12 @@ impl FromStr for PartialDSym {
             Err("size must be at least 1".into())
         } else if spec.dim < 1 {
             Err("dimension must be at least 1".into())
-        } else if spec.op_spec.len() != spec.dim as usize + 1 {
+        } else if spec.op_spec.len() - 1 != spec.dim as usize {
             Err("incorrect dimension for op specifications".into())
         } else if spec.m_spec.len() != spec.dim as usize {
             Err("incorrect dimension for degree specifications".into())
+        } else if spec.op_spec.iter().any(|op_i| 2 * op_i.len() < spec.size) {
+            Err("incomplete op spec".into())
         } else {
             let mut dset = PartialDSet::new(spec.size, spec.dim);
 
@@ -295,6 +297,11 @@ impl FromStr for PartialDSym {
                     if dset.op_unchecked(i, d) == 0 {
                         let &di = op_i.get(k)
                             .ok_or("incomplete op spec".to_string())?;
+                        if di < 1 || di > spec.size {
+                            return Err("op image out of range".into());
+                        } else if di != d && dset.op_unchecked(i, di) != 0 {
+                            return Err("inconsistent op spec".into());
+                        }
                         dset.set(i, d, di);
                         k += 1;
                     }
